@@ -248,3 +248,33 @@ Definition S_ranges (tb : tables) (a b : N) : option (list (option range)) :=
 (* per-interval sample metadata *)
 Definition S_sample_data (tb : tables) (a b : N) : list (option sample) :=
   map (S_meta tb) (seqN a (N.to_nat (b + 1 - a))).
+
+(* ---- the cached first sample number of every stsc run, by the naive recurrence over the raw
+   (first chunk, samples per chunk, description id) triples of the file ---- *)
+Fixpoint S_entries_from (prev : option stsc_entry) (raw : list (N * N * N)) : list stsc_entry :=
+  match raw with
+  | [] => []
+  | (fc, sp, _) :: t =>
+    let acc := match prev with
+               | None => 1
+               | Some p => first_sample p + (fc - first_chunk p) * spc p
+               end in
+    let e := mkEntry fc sp acc in
+    e :: S_entries_from (Some e) t
+  end.
+Definition S_entries (raw : list (N * N * N)) : list stsc_entry := S_entries_from None raw.
+
+(* raw triples a decoder can meet without wrap-around: non-decreasing first chunk, non-zero ids, 32-bit values *)
+Fixpoint raw_ok_from (prev : option stsc_entry) (raw : list (N * N * N)) : bool :=
+  match raw with
+  | [] => true
+  | (fc, sp, sdi) :: t =>
+    let acc := match prev with
+               | None => 1
+               | Some p => first_sample p + (fc - first_chunk p) * spc p
+               end in
+    is_u32 fc && is_u32 sp && is_u32 sdi && negb (sdi =? 0) && is_u32 acc
+    && match prev with None => true | Some p => first_chunk p <=? fc end
+    && raw_ok_from (Some (mkEntry fc sp acc)) t
+  end.
+Definition raw_ok (raw : list (N * N * N)) : bool := raw_ok_from None raw && is_u32 (lenN raw).
